@@ -11,10 +11,10 @@ from harness.gen import ir as G
 from harness.impl import docir
 
 MODULE = "CddVerif.Properties.C01"
-THEOREMS = ["C01.placeholder"]
-THEOREMS_FULL = [
-    "C01.takeDefault_digits", "C01.extract_int_default", "C01.extract_nat_roundtrip", "C01.extract_neg_roundtrip", "C01.extract_bool_roundtrip",
-    "C01.setDefaultDoc_extract_int", "C01.quote_unquote", "C01.unquote_quote_idem", "C01.emit_no_default_when_stripped",
+THEOREMS = [
+    "C01.extract_nat_roundtrip", "C01.extract_neg_roundtrip", "C01.extract_bool_roundtrip", "C01.setDefaultDoc_int",
+    "C01.setDefaultDoc_extract_int", "C01.emit_no_default_when_stripped", "C01.quote_unquote", "C01.unquote_quote_idem",
+    "C01.locate_emitted", "C01.hasParenAnnounce_false",
 ]
 STYLES = ("rest", "google", "numpydoc")
 
